@@ -89,7 +89,7 @@ PROTO = "rpyc/core/protocol.py::Connection."
 ATTR_FUNCS = [PROTO + n for n in ("_check_attr", "_access_attr", "_handle_getattr", "_handle_setattr", "_handle_delattr",
                                   "_handle_call", "_handle_callattr", "_handle_cmp", "_handle_ctxexit", "_handle_oldslicing")]
 SERVICE_HOOKS = ["rpyc/core/service.py::Service._rpyc_delattr", "rpyc/core/service.py::Service._rpyc_setattr"]
-ALL_CONTRACTS = ["brine", "compat", "externals", "stream", "channel", "protocol_attr", "colls", "protocol_box", "protocol_core"]
+ALL_CONTRACTS = ["brine", "compat", "externals", "stream", "channel", "protocol_attr", "colls", "protocol_box", "protocol_core", "async_"]
 ALL_SPECS = ["brine_spec", "channel_spec", "policy_spec", "refcount_spec", "protocol_spec"]
 
 PLANS["C06"] = dict(
@@ -125,5 +125,64 @@ PLANS["C12"] = dict(
         "threading.Lock with sequential semantics (ghost flag held); list.append / pop(0) as operations on a sequence",
         "Channel.send's contract (discharged under C05 / C19): one call = one contiguous frame",
         "scope: every message fits the 32-bit length field of the frame",
+    ],
+)
+
+COLLS = "rpyc/lib/colls.py::RefCountingColl."
+ASYNC = "rpyc/core/async_.py::AsyncResult."
+TIMEOUT = "rpyc/lib/__init__.py::Timeout."
+
+PLANS["C10"] = dict(
+    title="Objects lent to the peer live exactly as long as the peer holds them",
+    contracts=ALL_CONTRACTS, specs=ALL_SPECS, table="module",
+    targets=[COLLS + n for n in ("add", "decref", "clear", "__getitem__")], lemmas=[], compositions=["C10/inductive"],
+    native_focus=[], design_ref="DESIGN.md section 4, C10",
+    assumptions=COMMON_ASSUMPTIONS + [
+        "PARTIAL: under contract are the reference-counting table (add / decref / clear / lookup, whole-view "
+        "postconditions with frame) and the inductive invariant B = F + P + D over ALL histories of box / unbox / "
+        "drop-proxy / deliver-release transitions in any order (so a release notice crossing a fresh reference is "
+        "covered without enumerating interleavings). NOT yet under contract: that _box / _unbox / BaseNetref.__del__ / "
+        "_handle_del perform exactly these transitions (stated as the transition system of the lemma) and _cleanup",
+        "a slot list fetched from the table aliases the table entry; slots of distinct ids are distinct list objects",
+        "T-GC: a proxy's finalizer runs once when it becomes unreachable; T-ID: id packs of simultaneously live objects differ",
+        "single-threaded transitions (the table's lock is modelled sequentially)",
+    ],
+)
+PLANS["C15"] = dict(
+    title="Asynchronous results: one final outcome, callbacks once, timeouts exact",
+    contracts=ALL_CONTRACTS, specs=ALL_SPECS, table="module",
+    targets=[TIMEOUT + n for n in ("__init__", "expired", "timeleft")] +
+            [ASYNC + n for n in ("__init__", "__call__", "add_callback", "set_expiry", "wait", "value", "ready")] +
+            [PROTO + "async_request", PROTO + "sync_request"],
+    lemmas=["app_app1", "app_nil"], compositions=[], native_focus=[], design_ref="DESIGN.md section 4, C15",
+    assumptions=COMMON_ASSUMPTIONS + [
+        "time is a real-valued ghost clock: every time.time() returns a value not smaller than any earlier one; floats used "
+        "for deadlines are treated as mathematical reals (machine arithmetic treated as mathematical)",
+        "negative timeouts are excluded by precondition (the statement does not say what they mean; the code treats them "
+        "as `no expiry`); the single instant now == tmax is left open",
+        "callbacks are called through the uninterpreted `apply` (one ghost Call event each); they are assumed not to touch "
+        "the result's own fields",
+        "Connection.serve / poll_all are interface contracts here (ASSUMED): they may complete any pending result of the "
+        "connection through AsyncResult.__call__ (whose own contract gives finality) and never raise TimeoutError",
+        "the real-time half of `not later unless busy serving` (that poll returns by the deadline) is the OS's contract: "
+        "proved is that wait() hands serve() the result's OWN deadline object and re-tests it after every call",
+        "helpers.timed / _Async are not under contract yet",
+    ],
+)
+PLANS["C08"] = dict(
+    title="Every request gets exactly one response, delivered to its own requester",
+    contracts=ALL_CONTRACTS, specs=ALL_SPECS, table="module",
+    targets=[PROTO + n for n in ("_send", "_get_seq_id", "_dispatch_request", "_seq_request_callback", "_dispatch",
+                                 "_async_request")],
+    lemmas=["frames_app", "all_fit_app"], compositions=[], native_focus=[], design_ref="DESIGN.md section 4, C08",
+    assumptions=COMMON_ASSUMPTIONS + [
+        "sequential execution (threads: C13, not claimed)",
+        "the handler table call self._HANDLERS[handler](self, *args) is abstracted by the model `handler_run`: unknown "
+        "number / wrong arguments -> KeyError / TypeError and no handler runs; otherwise exactly one handler runs once and "
+        "returns or raises anything (the 20 handlers themselves are checked against contracts only where C06/C10 need them)",
+        "ASSUMED interface contracts (bodies not yet verified): Connection._box / _unbox / _box_exc / _unbox_exc",
+        "loggers neither raise nor touch program state (A-LOG)",
+        "next() on itertools.count is strictly increasing (fresh sequence numbers)",
+        "scope of _send: see C12; messages appended by nested sends fit the frame's length field",
     ],
 )
